@@ -23,6 +23,7 @@ type c16 struct {
 	args        [][]stick.Value
 	iterVals    []gen.Named
 	nGet, nIter int
+	neighbour   map[string]gen.Named
 	nRand       int
 }
 
@@ -34,6 +35,15 @@ func (p *c16) Init(tier string, seed int64) {
 	p.tier, p.seed = tier, seed
 	p.conts, p.keys, p.args = gen.Containers(), gen.Keys(), gen.ArgLists()
 	p.nGet = len(p.conts) * len(p.keys)
+	p.neighbour = map[string]gen.Named{}
+	for i, c := range p.conts {
+		p.neighbour[c.Label] = p.conts[(i+len(p.conts)-1)%len(p.conts)]
+		for _, d := range p.conts {
+			if c.V != nil && d.V != nil && d.Label != c.Label && fmt.Sprintf("%T", c.V) == fmt.Sprintf("%T", d.V) && reflect.TypeOf(c.V) != reflect.TypeOf(d.V) {
+				p.neighbour[c.Label] = d
+			}
+		}
+	}
 	// iteration zoo: containers + scalars + generated lengths 0..8 through 0..2 pointer levels
 	p.iterVals = append(append([]gen.Named{}, gen.Containers()...), gen.Scalars()...)
 	for n := 0; n <= 8; n++ {
@@ -236,9 +246,51 @@ func isScalar(v stick.Value) bool {
 }
 
 // expectation computes, independently of the library, what GetAttr may return.
+// predeclared returns a key of a defined scalar type (type K int) as the predeclared type it is defined from.
+func predeclared(key stick.Value) (stick.Value, bool) {
+	if key == nil {
+		return key, false
+	}
+	switch key.(type) {
+	case stick.SafeValue, fmt.Stringer:
+		return key, false
+	}
+	rv := reflect.ValueOf(key)
+	if rv.Type().PkgPath() == "" {
+		return key, false
+	}
+	switch rv.Kind() {
+	case reflect.Bool:
+		return rv.Bool(), true
+	case reflect.Int, reflect.Int8, reflect.Int16, reflect.Int32, reflect.Int64:
+		return rv.Int(), true
+	case reflect.Uint, reflect.Uint8, reflect.Uint16, reflect.Uint32, reflect.Uint64:
+		return rv.Uint(), true
+	case reflect.Float32, reflect.Float64:
+		return rv.Float(), true
+	case reflect.String:
+		return rv.String(), true
+	}
+	return key, false
+}
+
 func expectation(cont, key stick.Value, args []stick.Value) (mode expMode, cands []interface{}) {
 	if cont == nil {
 		return mustErr, nil
+	}
+	if pk, defined := predeclared(key); defined {
+		// a key of a defined type is the element under its own type if the container is keyed by that type,
+		// otherwise whatever the key of the underlying predeclared type selects - or an error
+		m, c := expectation(cont, pk, args)
+		if rv := reflect.Indirect(reflect.ValueOf(cont)); rv.IsValid() && rv.Kind() == reflect.Map && reflect.TypeOf(key).AssignableTo(rv.Type().Key()) {
+			if e := rv.MapIndex(reflect.ValueOf(key)); e.IsValid() {
+				return mustElem, []interface{}{e.Interface()}
+			}
+		}
+		if m == mustElem {
+			m = elemOrErr
+		}
+		return m, c
 	}
 	if _, ok := key.(stick.SafeValue); ok {
 		return anyOutcome, nil
@@ -321,6 +373,9 @@ func expectation(cont, key stick.Value, args []stick.Value) (mode expMode, cands
 			for it := rv.MapRange(); it.Next(); {
 				mk, mv := it.Key(), it.Value()
 				k := mk.Interface()
+				if pk, ok := predeclared(k); ok {
+					k = pk
+				}
 				if !isScalar(k) {
 					continue
 				}
@@ -481,6 +536,11 @@ func (p *c16) runGet(res0 *fw.Result, c, k gen.Named, argLists [][]stick.Value) 
 	for ai, args := range argLists {
 		res.Evals++
 		mode, cands := expectation(c.V, k.V, args)
+		// the lookup under test comes right after the same lookup on another value - one whose type prints
+		// alike if the zoo has one: the outcome may not depend on what was looked up before
+		if other, ok := p.neighbour[c.Label]; ok {
+			safeGetAttr(other.V, k.V, args)
+		}
 		v, err, pan := safeGetAttr(c.V, k.V, args)
 		in := fmt.Sprintf("GetAttr(%s, %s, args#%d %s)", c.Label, k.Label, ai, clip(fmt.Sprintf("%#v", args), 80))
 		key := "c16:" + in
